@@ -4,11 +4,23 @@ A  TLC exhaustive on spec/Relay (two halfPipe processes + Proxy join; every call
    environment): PrefixFidelity, NothingReadIsLost, InFlightOnly, CountsMatch, BothClosed, EndedClosesBoth,
    NoExtraClose, GaugeBalanced, NoWriteAfterEnd, and under fairness Returns / AllClosesHappen.  The instance that
    stops on a read error before forwarding the data (ForwardWithErr = FALSE) must violate NothingReadIsLost.
+   Buffer ownership is explicit (BufCap cells per direction, a Read may fill its buffer, a Write delivers what the
+   buffer holds then): BufferIntegrity holds for BufMode = "private"; the instance in which up's buffer runs on into
+   down's (BufMode = "shared") must violate PrefixFidelity.
 B  every complete behaviour with <= 1 fault (quick) / <= 2 faults (thorough) under three deterministic schedules x
    eager/lazy source close, plus simulated behaviours with arbitrary interleavings and any number of faults, is
    replayed on two real halfPipe goroutines wired as Proxy wires them: every call the real code makes parks at a
    gate, the driver releases the call the behaviour names with the outcome the behaviour names and compares the
    call, its arguments and the projected state after every step.
+B2 every "px" behaviour of Gen_Relay (data phase, both directions active: all placements of up's Read/Write blocks
+   relative to down's Read -> Write windows, Reads filling 1..BufCap parts of the buffer they are handed) is stepped
+   through the REAL Proxy() - the only place that says which memory the two directions relay through - with a gated
+   client connection (its Write parks holding the relay's buffer) and a driver-paced loopback covert; bytes delivered,
+   per-direction fidelity, closes, gauge and return are compared with TLC's state after every step.
+C2 free-running simultaneous bulk transfer in both directions through the real Proxy(): in-memory client whose Read
+   returns as many bytes as the buffer takes (also seeded fractions / caps around every plausible relay buffer size)
+   and real TCP on both legs with large socket buffers, with and without back-pressure; position-dependent streams
+   that tell the directions apart; judged by PrefixFidelity / NothingReadIsLost per direction, CountsMatch, BothClosed.
 C  seeded random fault scripts, halves free-running (real scheduling), and the real Proxy with a scripted client
    connection and a loopback covert (EOF / RST / stall, dial error): each connection's own call log is validated by
    Trace_Relay (all interleavings of the two logs; all invariants on every state; reported counts must equal the
@@ -19,8 +31,8 @@ import copy, json, os, re
 import vlib
 
 PKG = "pkg/station/lib"
-FILES = ["common/vcommon_test.go", "pkg_station_lib/relay_verif_test.go"]
-INVS = ["TypeOK", "PrefixFidelity", "NothingReadIsLost", "InFlightOnly", "CountsMatch", "BothClosed", "EndedClosesBoth",
+FILES = ["common/vcommon_test.go", "pkg_station_lib/relay_verif_test.go", "pkg_station_lib/relay_duplex_verif_test.go"]
+INVS = ["TypeOK", "PrefixFidelity", "BufferIntegrity", "NothingReadIsLost", "InFlightOnly", "CountsMatch", "BothClosed", "EndedClosesBoth",
         "NoExtraClose", "GaugeBalanced", "NoWriteAfterEnd", "Returns", "AllClosesHappen"]
 
 
@@ -59,6 +71,75 @@ def trace_fields(d):
     return out
 
 
+def duplex_stages(ctx, sdir, thorough):
+    """B2 (px behaviours replayed through the real Proxy) and C2 (free-running full-duplex bulk); returns the number of evaluations"""
+    g = ctx.tlc(sdir, "Gen_Relay.tla", "Gen_Relay_px_thorough.cfg" if thorough else "Gen_Relay_px.cfg", timeout=1200, workers=4, count=False)
+    if g["inv"] or g["nbeh"] < 200:
+        raise vlib.InfraError("px generator failed (%s behaviours): %s" % (g["nbeh"], g["out"][-2000:]))
+    outp = os.path.join(ctx.scratch, "relay_px_replay.ndjson")
+    bulkp = os.path.join(ctx.scratch, "relay_duplex_bulk.ndjson")
+    res = ctx.go_test(PKG, FILES, "lib", "^TestVerifRelay(ProxyDuplexReplay|DuplexBulk)$",
+                      env={"VERIF_IN": g["beh_file"], "VERIF_OUT": outp, "VERIF_OUT_BULK": bulkp, "VERIF_BUFCAP": 2,
+                           "VERIF_BULK_MB": 32 if thorough else 8, "VERIF_BULK_REPS": 4 if thorough else 1}, timeout=3000)
+    rows, bulk = ctx.read_results(outp), ctx.read_results(bulkp)
+    summ = [x for x in rows if x.get("kind") == "summary"]
+    bsum = [x for x in bulk if x.get("kind") == "summary"]
+    if not summ or not bsum:
+        raise vlib.InfraError("duplex drivers did not finish:\n" + res["out"][-3000:])
+    summ, bsum = summ[0], bsum[0]
+    for m in [x for x in rows if x.get("kind") == "mismatch"]:
+        want, got = m["want"], m["got"]
+        site = "%s.%s" % (want.get("d"), want.get("a"))
+        if got.get("stuck"):
+            key = "replay:proxy-duplex:stuck:%s" % site
+            what = "real Proxy stuck at %s (%s); behaviour: %s" % (site, got["stuck"], " ; ".join(m["ops"][-8:]))
+        elif got.get("a") != want.get("a") or got.get("n") != want.get("n"):
+            key = "replay:proxy-duplex:%s>%s" % (site, got.get("a"))
+            what = "real Proxy makes %s(%s) where Relay.tla requires %s(%s); behaviour: %s" % (
+                got.get("a"), got.get("n"), want.get("a"), want.get("n"), " ; ".join(m["ops"][-8:]))
+        else:
+            diff = m.get("diff") or []
+            key = "replay:proxy-duplex:state:%s:%s" % (site, "+".join(diff))
+            streams = "; ".join("%s stream: %s" % (d, m[d + "_stream"]) for d in ("up", "down") if m.get(d + "_stream"))
+            what = ("after %s through the real Proxy() the state differs from Relay.tla in %s (want %s, got %s)%s%s [relay buffers handed to "
+                    "Read: %s bytes]; behaviour: %s"
+                    % (site, diff, {k: want["st"].get(k, True) for k in diff}, {k: got["st"].get(k) for k in diff},
+                       " - the buffer a parked Write holds changed before it was delivered (BufferIntegrity)" if "hi" in diff else "",
+                       " - " + streams if streams else "", m.get("buffer_lengths"), " ; ".join(m["ops"][-8:])))
+        ctx.violation(key, what, m)
+    for f in [x for x in rows + bulk if x.get("kind") == "final"]:
+        name = f["what"].split(" ")[0]
+        if name.startswith("Infra:"):
+            raise vlib.InfraError("duplex driver: " + f["what"])
+        case = f.get("case", {}).get("name", "")
+        ctx.violation("final:%s:%s" % (f["mode"], name),
+                      "real Proxy() %s run %s ends in a state violating %s" % (f["mode"], ("%s (%s)" % (f["run"], case)) if case else f["run"], f["what"]), f)
+    for sm, name in ((summ, "proxy-duplex-replay"), (bsum, "proxy-duplex")):
+        if sm.get("goroutines_left", 0) > 0:
+            ctx.violation("leak:goroutines:%s" % name, "%d goroutine(s) left behind" % sm["goroutines_left"], sm)
+    if summ.get("skipped", 0) > 0:
+        ctx.notes.append("duplex replay stopped early after repeated stuck steps: %d behaviours skipped" % summ["skipped"])
+    runs = [x for x in bulk if x.get("kind") == "bulk"]
+    filled = [x for x in runs if x["case"]["client"] == "mem" and x["fin"].get("max_read", 0) >= max(x["fin"].get("buffer_lengths") or [1 << 62])]
+    if not ctx.violations:
+        # the new stages must have exercised what they are for
+        if summ["behaviours"] < 200 or summ["up_reads_while_down_holds"] < 50 or summ["up_reads_filling_the_buffer"] < 50 or summ["mismatches"]:
+            raise vlib.InfraError("duplex replay is vacuous: %s" % json.dumps(summ))
+        if len(filled) < 2 or len([x for x in runs if x["case"]["client"] == "tcp"]) < 3:
+            raise vlib.InfraError("duplex bulk is vacuous: %d in-memory runs filled the relay buffer" % len(filled))
+    ctx.log("B2: %d px behaviours through the real Proxy (%d steps, %d up Reads while down holds its buffer, buffers %s), mismatches=%d; "
+            "C2: %d full-duplex bulk runs, %d failures" % (summ["behaviours"], summ["steps"], summ["up_reads_while_down_holds"],
+                                                         summ["buffer_lengths"], summ["mismatches"], len(runs), bsum["final_failures"]))
+    ctx.stage("B2", behaviours=summ["behaviours"], steps=summ["steps"], mismatches=summ["mismatches"], classes=summ["classes"],
+              up_reads_while_down_holds=summ["up_reads_while_down_holds"], up_reads_filling_the_buffer=summ["up_reads_filling_the_buffer"],
+              relay_buffer_lengths_seen=summ["buffer_lengths"], down_reads_in_pieces=summ["down_reads_in_pieces"])
+    ctx.stage("C2", runs=len(runs), failures=bsum["final_failures"], in_memory_runs_filling_the_buffer=len(filled),
+              bytes_per_direction=sum(x["case"]["total"] for x in runs), cases=sorted(set(x["case"]["name"] for x in runs)))
+    if runs:
+        ctx.sample({"stage": "C2", "case": runs[0]["case"], "fin": runs[0]["fin"]})
+    return summ["behaviours"] + len(runs)
+
+
 def run(ctx):
     thorough = ctx.tier == "thorough"
     sdir = ctx.spec_copy("Relay")
@@ -72,7 +153,11 @@ def run(ctx):
     r2 = ctx.tlc(sdir, "Relay.tla", "MC_Relay_drop.cfg", timeout=300, count=False)
     if r2["inv"] != "NothingReadIsLost":
         raise vlib.InfraError("the non-forwarding instance should violate NothingReadIsLost, got %s" % r2["inv"])
-    ctx.stage("A", invariants=INVS, nonvacuity="ForwardWithErr=FALSE instance violates NothingReadIsLost as expected")
+    r3 = ctx.tlc(sdir, "Relay.tla", "MC_Relay_shared.cfg", timeout=300, count=False)
+    if r3["inv"] != "PrefixFidelity":
+        raise vlib.InfraError("the shared-buffer instance (BufMode = \"shared\") should violate PrefixFidelity, got %s" % r3["inv"])
+    ctx.stage("A", invariants=INVS, nonvacuity="ForwardWithErr=FALSE instance violates NothingReadIsLost as expected; "
+              "BufMode=\"shared\" instance (up's relay buffer overlaps down's) violates PrefixFidelity as expected")
 
     # ---- B
     g = ctx.tlc(sdir, "Gen_Relay.tla", "Gen_Relay_f2.cfg" if thorough else "Gen_Relay_f1.cfg", timeout=3000, workers=8, count=False)
@@ -140,6 +225,9 @@ def run(ctx):
     ctx.stage("B", behaviours=summ["behaviours"], steps=summ["steps"], mismatches=summ["mismatches"], exhaustive_complete=nexh,
               simulated=nsimb, classes=summ["classes"], classes_with_bytes_in_flight=summ["nontrivial"],
               mismatch_classes=summ.get("mismatch_classes"))
+
+    # ---- B2 / C2: full duplex through the real Proxy()
+    duplex_evals = duplex_stages(ctx, sdir, thorough)
 
     # ---- C
     ntr, npx = (600, 150) if thorough else (80, 20)
@@ -234,7 +322,7 @@ def run(ctx):
                         "client_log": ["%s(%s,%s)" % (e["op"], e["n"], e["e"]) for e in px[0]["client"]]})
     ctx.stage("C", traces=len(traces), free_running=nfull, real_proxy=len(traces) - nfull, rejected=rejected)
 
-    ctx.cov["evaluations"] = summ["behaviours"] + len(traces)
+    ctx.cov["evaluations"] = summ["behaviours"] + len(traces) + duplex_evals
     ctx.cov["distinct_nontrivial"] = summ["nontrivial"]
     ctx.cov["exhaustive"] = False
     ctx.cov["rule"] = ("stage B behaviours are classed by (schedule, chunking of both directions, site+kind of every fault), measured by "
@@ -247,4 +335,8 @@ def run(ctx):
         "the covert side of the real-Proxy runs is a loopback TCP socket and has no call log (its calls are silent steps in Trace_Relay); "
         "the deferred third covertConn.Close() of Proxy is therefore not observed",
         "real deadlines (30 s / 2 min) are never awaited: scripted connections ignore them; a stall is ended by the peer direction",
+        "stage B2 gates the client connection only (the covert leg of the real Proxy is a kernel socket): up's Write follows its Read at "
+        "once, deadline refreshes are silent; BufCap = 2 abstract cells stand for the real buffer (a Read of n cells fills n/2 of whatever "
+        "buffer the real code hands over); schedules in which down READS while up holds its buffer are reached only by the free-running "
+        "stage C2 (back-pressure cases)",
     ]
